@@ -275,6 +275,21 @@ func runC14(c *core.Ctx) {
 	// ---------------- RouterAddress
 	c.Job("raddr", n, func(i int, r *core.Rand) {
 		m := gen.RouterAddress(r)
+		if i%50 == 17 {
+			// options whose encoded size sits at the limit of the two-byte size field: 65,530 .. 65,545
+			// bytes (up to 65,535 they fit; beyond, the constructor refuses - or what it returns still
+			// validates and round-trips)
+			target := 65530 + (i/50)%16
+			g := mapOfExactSize(r, target, []int{257, 300, 512}[(i/800)%3])
+			m.Options = rm.Mapping{}
+			for k, v := range g {
+				m.Options.Pairs = append(m.Options.Pairs, rm.Pair{K: []byte(k), V: []byte(v)})
+			}
+			m.Options = sortedMapping(m.Options)
+			if len(m.Style) == 0 {
+				m.Style = []byte("NTCP2")
+			}
+		}
 		enc := m.Encode()
 		c.Eval(1)
 		if len(m.Style) == 0 {
@@ -635,6 +650,13 @@ func runC14(c *core.Ctx) {
 		m.SigType, m.BlindedKey = uint16(st), key.Pub
 		if m.Offline != nil {
 			o, _ := offlineFor(r, key, 7)
+			if i%5 == 2 {
+				// boundary values of the offline block's own expiry (every value of the field has an
+				// encoding): re-signed so that the block stays authentic
+				o.Expires = []uint32{0, 1, 1<<32 - 1}[(i/5)%3]
+				o.Sig, _ = key.Sign(o.SignedPart(), r)
+				sh["offline_expires"] = o.Expires
+			}
 			m.Offline = &o
 		}
 		sh["sig"] = st
